@@ -25,6 +25,8 @@ def expected_args(pid, desc):
         if e is None:
             return None
         return ["C08", e[0], e[1], e[2]]
+    if pid == "C13":
+        return ["C13", [[a, b, c] for a, b, c in spec.sam_names(desc)]]
     if pid == "C07":
         return ["C07", [spec.camel(i["enum"]) for i in spec.instances(desc)]]
     return pid
